@@ -593,7 +593,9 @@ def mutate(doc, rng, kind=None):
         elif "min_size" in s:
             s["min_size"] = rng.choice([0, 2 ** 64 - 1, 2 ** 63, -1])
         elif "count" in s:
-            s["count"] = rng.choice([2 ** 32, 2 ** 32 - 1, -1, 2 ** 63]) if rng.chance(1, 2) else s["count"]
+            # (2^32-1 is accepted, but the first roll then walks ~2^32 archive indices — a practical hang, and
+            #  with base > 0 `base + (count - 1)` overflows: C07's subject, kept out of this harness)
+            s["count"] = rng.choice([2 ** 32, 4294967296000, -1, 2 ** 63]) if rng.chance(1, 2) else s["count"]
             if rng.chance(1, 2):
                 s["base"] = rng.choice([2 ** 32, -1])
         else:
@@ -696,8 +698,8 @@ def corpus():
 
 def cases(rng, tier):
     out = []
-    n_render = 240 if tier == "quick" else 4000
-    n_mut = 1000 if tier == "quick" else 20000
+    n_render = 240 if tier == "quick" else 2500
+    n_mut = 1000 if tier == "quick" else 12000
     bases = []
     for _ in range(n_render):
         lc = gen_logical(rng)
